@@ -1454,7 +1454,7 @@ class Twist2(SMTwist):
         else:
             raise ValueError('Twist2 *, incorrect right operand')
 
-    def __rmul(self, left):
+    def __rmul__(self, left):
         if base.isscalar(left):
             return Twist2(self.S * left)
         else:
